@@ -101,7 +101,23 @@ def check_case(ctx, case, rng):
             judge(ctx, case, cfgd, cfg, T, gen.arbitrary_bytes(rng, rng.randint(0, 40) + 64, mode), "arbitrary")
 
 
+def witnesses(ctx):
+    """Pinned witness of the open finding K1, judged by the same oracle as everything else."""
+    from ..gen import F, N_int, N_struct
+
+    u = N_struct([F(None, N_struct([F("a", N_int("uint32")), F("b", N_int("uint32"))])), F("c", N_int("uint8"))],
+                 union=True)
+    k1 = gen.simple_case([F("u", u)])
+    k1["named"] = {}
+    cfgd = {"endian": "<", "align": False, "compiled": False, "ptr": "uint64"}
+    cs, _ = engine.load_cfg(ctx, k1, cfgd)
+    judge(ctx, k1, cfgd, engine.mcfg(k1, "<", False), cs.T, bytes([1, 2, 3, 4, 5, 6, 7, 8]) + bytes(8), "witness")
+    ctx.cell("pinned-witnesses")
+
+
 def run(ctx):
+    if ctx.shard == 0:
+        witnesses(ctx)
     for i in range(N_CASES[ctx.tier]):
         if ctx.out_of_time():
             break
